@@ -23,13 +23,15 @@ for pid in sorted(d):
             m = re.match(r"violated: (\S+)", r["violations"][0])
             clause = m.group(1) if m else ""
         st = r["status"]
-        tot["killed" if st == "killed" else ("equivalent" if st == "equivalent" else "other")] += 1
+        if r.get("seeds") and st == "killed":
+            st = "killed (seeds %s)" % ",".join(str(x) for x in r["seeds"])
+        tot["killed" if st.startswith("killed (") or st == "killed" else ("equivalent" if st == "equivalent" else "other")] += 1
         what = (what or "").replace("|", "/").replace("\n", " ")
         if len(what) > 110:
             what = what[:107] + "..."
         rows.append("| %s | %s%s | %s | %s | `%s` |" % (pid, nm, (": " + what) if what else "", kind, st, clause))
 rows.append("")
-rows.append("%d changes: %d killed by the quick tier at VERIF_SEED=1, %d equivalent (see its description), %d not killed." % (sum(tot.values()), tot["killed"], tot["equivalent"], tot["other"]))
+rows.append("%d changes: %d killed by the quick tier at every seed tried, %d equivalent (see its description), %d not killed at every seed." % (sum(tot.values()), tot["killed"], tot["equivalent"], tot["other"]))
 txt = "\n".join(rows)
 p = os.path.join(HERE, "DESIGN.md")
 s = open(p).read()
